@@ -74,11 +74,16 @@ class Gamma:
         vabs = 0.0
         for o1, o2, c in terms:
             cv = coef_value(c, alpha, beta)
-            if cv == 0.0:
+            # the scale of a term is the sum of the magnitudes of the parts the DOCUMENTED expression adds up (the alpha
+            # family, the beta family, ...), not the magnitude of their sum: for alpha = 1, beta = -1/2 the alpha and beta
+            # families of the Ehrenfest Hessian cancel analytically (1e7 - 1e7 = 1e-3 at the centre of a tight p shell)
+            # and no evaluation in doubles can return more digits than the families have
+            cabs = (abs(c[0]) + abs(c[1] * alpha) + abs(c[2] * beta) + abs(c[3] * alpha * beta)) / 2.0
+            if cabs == 0.0:
                 continue
             g, gabs = self.g(o1, o2)
             v = v + cv * g
-            vabs = vabs + abs(cv) * gabs
+            vabs = vabs + cabs * gabs
         n = len(self.pts)
         return (np.zeros(n) + v, np.zeros(n) + vabs)
 
@@ -139,7 +144,9 @@ def gen_cases(pid, tier, seed):
         # parameters NEAR (not at) the special values 0, 1/2, 1 for which whole families of terms drop out of the
         # definitions: a scan in alpha, a finite-difference step, a round-off such as 0.1 * 10 - 1e-6
         near = {1: (1.0 - 2.0 ** -18, None), 2: (0.5 + 2.0 ** -19, None), 3: (None, 2.0 ** -19), 4: (1.0 + 2.0 ** -19, -2.0 ** -18),
-                6: (2.0 ** -20, 1.0 - 2.0 ** -18)}.get(d % 7)
+                6: (2.0 ** -20, 1.0 - 2.0 ** -18),
+                # and AT the special values, with the other parameter generic (whole families of terms drop out exactly)
+                5: (0.5, 0.75 if (d // 7) % 2 else -1.25), 0: ((1.0, 0.0)[(d // 7) % 2], -0.5)}.get(d % 7)
         if near:
             c["alpha"] = near[0] if near[0] is not None else c["alpha"]
             c["beta"] = near[1] if near[1] is not None else c["beta"]
